@@ -26,6 +26,16 @@ CHECKS = {
          "The specification (spec/Rule.tla, Domains.tla, Mask.tla) states Match as the conjunction of the mask pattern on the proper target and every modifier. TLC enumerates every value set of each modifier family and pairs of families against a structured request universe and checks monotonicity/axioms; every row is replayed into the real parser and Match in three renderings (value orders, spellings). In the other direction a seeded grammar driver (any subset of modifiers, 1-6 values, IPv4/IPv6/CIDR/quoted clients) runs the real code and TLC validates every event against the same operator.",
          "Trusted: TLC; the renderer (abstract rule -> text), cross-checked against the parsed rule's exported accessors; PSL answers and derived request fields are logged environment inputs; mask patterns only (regex rules are Go regexp semantics).",
          "6/C04"),
+ "C06": ("model_checking",
+         "TLC enumeration of bags of matching rules with the TLA+ verdict meaning; every permutation and split replayed through the five API entry points",
+         "spec/Verdict.tla defines the verdict class on BAGS (badfilter removal, rewrite/stealth exclusion, referrer-level urlblock/genericblock, class precedence) and, separately, the implementation's left-to-right scan; TLC enumerates every bag of up to 3 (quick) / 4 (thorough) rules of a feature-complete pool with every set of up to 2 referrer rules, checks that the scan agrees with the bag meaning for every permutation, and emits class and admissible winners; the harness replays all permutations through NewMatchingResult and GetDNSBasicRule and seeded permutations x list splits through Engine.MatchRequest, NetworkEngine.Match and DNSEngine.MatchRequest.",
+         "Trusted: TLC, the renderer (pool rules are cross-checked against the parsed rule's accessors and must all match the replay request). Class and admissible winners are compared, never the identity among equals. $stealth is not combined with document-level modifiers.",
+         "6/C06"),
+ "C08": ("model_checking",
+         "TLC enumeration of bags with $badfilter twins and near twins (TwinNeutral / OnlyTwins theorems); all permutations replayed through the five entry points",
+         "Verdict!RemoveBadfilter and Rule!Twin state that a $badfilter rule disables exactly the rules equal to it apart from that modifier. TLC enumerates bags from a pool made of a rule carrying every list-valued modifier, its twin, twelve near twins (one differing modifier value each) with their own twins, and plain/exception/rewrite rules with twins, checks TwinNeutral and OnlyTwins on the model and emits the verdicts; the harness replays every permutation through NewMatchingResult, GetDNSBasicRule and the engines.",
+         "Trusted: TLC, the renderer. Twins are produced by appending ',badfilter' to the same text.",
+         "6/C08"),
 }
 
 NOT_YET = "check not built yet in this session (see DESIGN.md section 6 for the planned TLA+ decision procedure)"
